@@ -242,6 +242,13 @@ func (m *runtimeContextManager) ReleaseMem(memAmount uint64) {
 	if m.hardLimits.Memory > 0 {
 		if memAmount <= m.usedResources.Memory {
 			m.usedResources.Memory -= memAmount
+		} else if m.parent != nil {
+			// The memory was required in an enclosing context (e.g. by a
+			// coroutine created there and ending here): give the rest back to
+			// that context.
+			memAmount -= m.usedResources.Memory
+			m.usedResources.Memory = 0
+			m.parent.ReleaseMem(memAmount)
 		} else {
 			panic("Too much mem released")
 		}
